@@ -300,6 +300,20 @@ where
     End::new(stream.block.operators, strategy, batch_mode)
 }
 
+/// Close a stream's chain with the real `RoutingEnd` operator (as `route().add_route(..)..build()`
+/// does): `routes` lists, in route order, the downstream block of each route and its predicate.
+pub fn route_chain<Op>(
+    stream: Stream<Op>,
+    routes: Vec<(BlockId, fn(&Op::Out) -> bool)>,
+    batch_mode: BatchMode,
+) -> impl Operator<Out = ()>
+where
+    Op: Operator + 'static,
+    Op::Out: ExchangeData,
+{
+    crate::operator::verif_routing_end(stream.block.operators, routes, batch_mode)
+}
+
 /// Close a stream's chain with the real `End` operator using the group-by strategy on `keyer`.
 pub fn end_chain_group_by<Op, K, F>(
     stream: Stream<Op>,
